@@ -151,6 +151,7 @@ def run(chk):
                        "run_prompt loop itself is the real one", "lines that fail at run time fail in their last statement, before any "
                        "side effect of it"]
     chk.floor = 100
+    chk.rule += "; plus bindings that share a builtin's name, lines rejected for their size after definitions that compiled, later uses of names that only rejected lines tried to define, definitions with their own constants in a line that then fails at run time"
     work = core.scratch_dir()
     try:
         n = 120 if quick else 3000
